@@ -54,6 +54,7 @@ type Case struct {
 	Trust  string         `json:"trust"` // the generator's classification (informational)
 	V      int            `json:"v"`     // spelling variant
 	Seed   int64          `json:"seed"`  // seed of the run (spelling of the trusted_proxies list)
+	Far    bool           `json:"far"`   // peer not reachable over loopback: executed in-package with a chosen RemoteAddr
 	Conc   *Conc          `json:"conc,omitempty"`
 	Obs    *Obs           `json:"obs,omitempty"`
 }
@@ -249,7 +250,7 @@ func headerValue(name string, line int, c *Case) string {
 		return "for=10.1.1.1"
 	case "for":
 		if line == 1 {
-			return "10.2.0.1, 10.2.0.2"
+			return x1Addr(c) + ", 10.2.0.2"
 		}
 
 		return "10.2.1.1"
@@ -290,6 +291,23 @@ func headerValue(name string, line int, c *Case) string {
 	}
 
 	panic("unknown header " + name)
+}
+
+// x1Addr is the first address of the X-Forwarded-For value: in every second spelling variant it is
+// an address that is listed in trusted_proxies (a peer claiming to be the trusted proxy), provided
+// the list has a single-address entry other than the peer itself.
+func x1Addr(c *Case) string {
+	if c.V%2 == 0 {
+		for _, e := range c.List.Entries {
+			if e.K == "ip" {
+				if a := PeerAddr(Peer{Fam: e.Fam, Bits: e.Bits}, c.Far); a != PeerAddr(c.Peer, c.Far) {
+					return a
+				}
+			}
+		}
+	}
+
+	return "10.2.0.1"
 }
 
 // markers: strings that only occur in values the peer sent in forwarded headers
@@ -410,6 +428,8 @@ func Project(c *Case, peerAddr string, status int, ruleTag, echo string, up *req
 				switch {
 				case ip == peerAddr:
 					o.IPs = append(o.IPs, "peer")
+				case ip == x1Addr(c):
+					o.IPs = append(o.IPs, "X1")
 				default:
 					o.IPs = append(o.IPs, sym(ip, ipSyms))
 				}
@@ -439,7 +459,7 @@ func Project(c *Case, peerAddr string, status int, ruleTag, echo string, up *req
 			o.UpNames = append(o.UpNames, n)
 
 			all := strings.Join(vals, "\n")
-			for _, m := range markers {
+			for _, m := range append([]string{x1Addr(c) + ","}, markers...) {
 				if strings.Contains(all, m) {
 					o.Leak = append(o.Leak, n)
 
@@ -506,6 +526,103 @@ func SelfTest() error {
 	return nil
 }
 
+// ------------------------------------------------------------------ in-package execution (far peers)
+
+// Prepared is one concrete request handed to the in-package executor (harness/overlay/c09_*_test.go),
+// which knows nothing about the property: it builds the service with the given trusted_proxies,
+// calls its handler with the given RemoteAddr and reports what came back.
+type Prepared struct {
+	ID      string      `json:"id"`
+	Mode    string      `json:"mode"`
+	Unset   bool        `json:"unset"`
+	Trusted []string    `json:"trusted"`
+	Remote  string      `json:"remote"`
+	Method  string      `json:"method"`
+	Target  string      `json:"target"`
+	Host    string      `json:"host"`
+	Headers [][2]string `json:"headers"`
+}
+
+// Setup is the first line of a prepared file: the rule sets per mode (forward_to.host is the
+// placeholder UPSTREAM) and the mechanisms catalogue.
+type Setup struct {
+	Setup      bool                        `json:"setup"`
+	RuleSets   map[string]*rconfig.RuleSet `json:"rulesets"`
+	Mechanisms map[string]any              `json:"mechanisms"`
+}
+
+// RawObs is what the in-package executor reports.
+type RawObs struct {
+	ID       string              `json:"id"`
+	Status   int                 `json:"status"`
+	Rule     string              `json:"rule"`
+	Echo     string              `json:"echo"`
+	Upstream bool                `json:"upstream"`
+	UpHeader map[string][]string `json:"up_header"`
+}
+
+func FarSetup() Setup {
+	return Setup{
+		Setup: true,
+		RuleSets: map[string]*rconfig.RuleSet{
+			app.Decision: ruleSet(app.Decision, "", true),
+			app.Proxy:    ruleSet(app.Proxy, "UPSTREAM", true),
+		},
+		Mechanisms: map[string]any{
+			"authenticators": []any{map[string]any{"id": "anon", "type": "anonymous"}},
+			"finalizers": []any{
+				map[string]any{"id": "hdr", "type": "header", "config": map[string]any{"headers": map[string]any{"X-Unused": "x"}}},
+			},
+		},
+	}
+}
+
+func remoteAddr(peer string) string {
+	if strings.Contains(peer, ":") {
+		return "[" + peer + "]:4711"
+	}
+
+	return peer + ":4711"
+}
+
+// Prepare renders the concrete request of a far case.
+func Prepare(c *Case) Prepared {
+	c.Far = true
+	peer := PeerAddr(c.Peer, true)
+	r := Request(c, peer)
+
+	tp := ListStrings(c.List, true, c.Seed)
+	if tp == nil {
+		tp = []string{}
+	}
+
+	return Prepared{
+		ID: c.ID, Mode: c.Mode, Unset: !c.List.Set, Trusted: tp, Remote: remoteAddr(peer),
+		Method: r.Method, Target: r.Target, Host: r.Host, Headers: r.Headers,
+	}
+}
+
+// ProjectRaw completes a far case from the executor's report.
+func ProjectRaw(c *Case, raw RawObs) {
+	c.Far = true
+	peer := PeerAddr(c.Peer, true)
+	r := Request(c, peer)
+
+	var up *reqview.UpReq
+	if raw.Upstream {
+		up = &reqview.UpReq{Header: http.Header(raw.UpHeader)}
+	}
+
+	c.Obs = Project(c, peer, raw.Status, raw.Rule, raw.Echo, up)
+
+	tp := ListStrings(c.List, true, c.Seed)
+	if tp == nil {
+		tp = []string{}
+	}
+
+	c.Conc = &Conc{Peer: remoteAddr(peer), Trusted: tp, Unset: !c.List.Set, Method: r.Method, Target: r.Target, Headers: r.Headers}
+}
+
 // ------------------------------------------------------------------ execution on the services
 
 type bed struct {
@@ -514,7 +631,38 @@ type bed struct {
 	mode string
 }
 
-func ruleSet(mode, upstreamHost string) *rconfig.RuleSet {
+// EchoTemplate renders the request view as the JSON the scripted Echo finalizer produces; used where
+// the scripted mechanisms are not available (in-package execution): the real header finalizer
+// evaluates it.
+func EchoTemplate() string {
+	var sb strings.Builder
+
+	sb.WriteString(`{"method":{{ .Request.Method | quote }},"scheme":{{ .Request.URL.Scheme | quote }},` +
+		`"host":{{ .Request.URL.Host | quote }},"path":{{ .Request.URL.Path | quote }},` +
+		`"rawpath":{{ .Request.URL.RawPath | quote }},"query":{{ .Request.URL.RawQuery | quote }},` +
+		`"captures":{},"ips":{{ .Request.ClientIPAddresses | toJson }},"headers":{`)
+
+	for i, n := range order {
+		if i > 0 {
+			sb.WriteString(",")
+		}
+
+		fmt.Fprintf(&sb, `%q:{{ .Request.Header %q | quote }}`, Names[n], Names[n])
+	}
+
+	sb.WriteString("}}")
+
+	return sb.String()
+}
+
+// RuleSet is the rule set of the check. real selects the real header finalizer (id "hdr" in the
+// catalogue) instead of the scripted Tag / Echo finalizers; in proxy mode real rules also force the
+// upstream scheme to http (the in-package upstream is plain).
+func RuleSet(mode, upstreamHost string, real bool) *rconfig.RuleSet {
+	return ruleSet(mode, upstreamHost, real)
+}
+
+func ruleSet(mode, upstreamHost string, real bool) *rconfig.RuleSet {
 	var rules []rconfig.Rule
 
 	methods := map[string][]string{"act": {http.MethodGet, http.MethodPut}, "f1": {http.MethodPost}}
@@ -542,8 +690,18 @@ func ruleSet(mode, upstreamHost string) *rconfig.RuleSet {
 						},
 					}
 
+					if real {
+						rc.Execute = []config.MechanismConfig{
+							{"authenticator": "anon"},
+							{"finalizer": "hdr", "config": map[string]any{"headers": map[string]any{"X-Rule": id, "X-Echo": EchoTemplate()}}},
+						}
+					}
+
 					if mode == app.Proxy {
 						rc.Backend = &rconfig.Backend{Host: upstreamHost}
+						if real {
+							rc.Backend.URLRewriter = &rconfig.URLRewriter{Scheme: "http"}
+						}
 					}
 
 					rules = append(rules, rc)
@@ -600,7 +758,7 @@ func startBed(mode string, fam string, trusted []string, up *reqview.Upstream) (
 		upHost = up.Addr
 	}
 
-	if err := a.Processor.OnCreated(ruleSet(mode, upHost)); err != nil {
+	if err := a.Processor.OnCreated(ruleSet(mode, upHost, false)); err != nil {
 		a.Stop()
 
 		return nil, fmt.Errorf("loading rules: %w", err)
